@@ -491,6 +491,103 @@ func runC16(c *Ctx) {
 	c.Min(2)
 	createObjectJournalKinds(c, w, w.FuncObj(statePkg, "journal", "append"))
 
+	// ------------------------------------------------------------ F7
+	c.Rule("C16.F7", "OWNERSHIP", "the big.Int that becomes an account's balance belongs to the state: in core/state a function either takes ownership of its parameter (a setter: it hands the parameter on to the store of Account.Balance / DelegationBalance at every one of its setter calls) or stores a value it made itself (rooted at new(big.Int) / big.NewInt through the receiver-returning big.Int methods) — never one on some paths and the other on others. AddBalance(amount) receives integers the EVM recycles through its integer pool; a balance that is the caller's integer changes without a journal entry")
+	c.Min(6)
+	c16F7(c, w)
+
+	// ------------------------------------------------------------ F8
+	c.Rule("C16.F8", "OWNERSHIP", "a log outlives the frame that emitted it: the Data of every types.Log built in core/vm is a copy, never a slice of the frame's memory — no value reaching Log.Data derives from a Memory method that returns a sub-slice of Memory.store (GetPtr). The journal only counts logs; a later write to that memory range — the return data of a reverting or static sub-call is copied there — would rewrite a log that already exists")
+	c.Min(1)
+	{
+		storeF := w.Field("core/vm", "Memory", "store")
+		logData := w.Field("core/types", "Log", "Data")
+		aliasing := map[*ssa.Function]bool{}
+		for _, fn := range w.FuncsIn("core/vm") {
+			if fn.Blocks == nil || fn.Signature.Recv() == nil || ownerName(fn.Signature.Recv().Type()) != "Memory" {
+				continue
+			}
+			for _, b := range fn.Blocks {
+				r, ok := b.Instrs[len(b.Instrs)-1].(*ssa.Return)
+				if !ok {
+					continue
+				}
+				for _, res := range r.Results {
+					var walk func(v ssa.Value, d int) bool
+					walk = func(v ssa.Value, d int) bool {
+						if d > 6 {
+							return false
+						}
+						switch x := stripConvNoBind(v).(type) {
+						case *ssa.Slice:
+							if f, _ := loadedField(stripConvNoBind(x.X)); f == storeF {
+								return true
+							}
+							return walk(x.X, d+1)
+						case *ssa.Phi:
+							for _, e := range x.Edges {
+								if walk(e, d+1) {
+									return true
+								}
+							}
+						case *ssa.UnOp:
+							if f, _ := loadedField(x); f == storeF {
+								return true
+							}
+							if al, isAl := x.X.(*ssa.Alloc); isAl {
+								for _, rr := range *al.Referrers() {
+									if st, isSt := rr.(*ssa.Store); isSt && st.Addr == ssa.Value(al) && walk(st.Val, d+1) {
+										return true
+									}
+								}
+							}
+						}
+						return false
+					}
+					if walk(res, 0) {
+						aliasing[fn] = true
+					}
+				}
+			}
+		}
+		nLog := 0
+		seenLog := map[*ssa.Store]bool{}
+		for _, fn := range w.FuncsIn("core/vm") {
+			if strings.HasSuffix(w.fileOf(fn.Pos()), "_test.go") {
+				continue
+			}
+			for _, x := range withClosures(fn) {
+				for _, fw := range fieldWrites(x) {
+					if fw.Field != logData {
+						continue
+					}
+					st, ok := fw.Instr.(*ssa.Store)
+					if !ok || seenLog[st] {
+						continue
+					}
+					seenLog[st] = true
+					nLog++
+					c.sites++
+					c.sawFunc(fname(x))
+					bad := ""
+					backward(st.Val, func(v ssa.Value) bool {
+						if cc, isCall := v.(*ssa.Call); isCall {
+							if g := cc.Call.StaticCallee(); g != nil && aliasing[g] {
+								bad = g.Name()
+							}
+							return false
+						}
+						return bad == ""
+					})
+					c.Check(fmt.Sprintf("%s#log-data-is-a-copy-%d", fname(x), nLog), st.Pos(), bad == "", ifelse(bad == "", "the data comes from a copying accessor", "Log.Data is the slice of frame memory returned by Memory."+bad+": a later write to that range in the same frame (e.g. the return data of a failed or static sub-call) rewrites the already emitted log"))
+				}
+			}
+		}
+		if nLog == 0 {
+			c.Undecided("core/vm#log-data", token.NoPos, "no store into types.Log.Data found in core/vm")
+		}
+	}
+
 	// ------------------------------------------------------------ F4
 	c.Rule("C16.F4", "CONFINED", "Contract.Gas is increased only by gas returned from a callee frame (the call/create opcodes) or set when the contract is created")
 	c.Min(4)
@@ -745,5 +842,144 @@ func stripConvNoBind(v ssa.Value) ssa.Value {
 		default:
 			return v
 		}
+	}
+}
+
+func c16F7(c *Ctx, w *World) {
+	acct := w.Struct(statePkg, "Account")
+	isBalField := func(f *types.Var) bool {
+		return f != nil && ownerOfField(acct, f) && (f.Name() == "Balance" || f.Name() == "DelegationBalance")
+	}
+	var fns []*ssa.Function
+	for _, fn := range w.FuncsIn(statePkg) {
+		if fn.Blocks != nil && !strings.HasSuffix(w.fileOf(fn.Pos()), "_test.go") {
+			fns = append(fns, fn)
+		}
+	}
+	paramIndex := func(fn *ssa.Function, v ssa.Value) int {
+		v = stripConvNoBind(v)
+		for i, p := range fn.Params {
+			if ssa.Value(p) == v {
+				return i
+			}
+		}
+		return -1
+	}
+	// fresh: rooted at an allocation made in this function, following receiver-returning big.Int methods
+	var fresh func(v ssa.Value, depth int) bool
+	fresh = func(v ssa.Value, depth int) bool {
+		if depth > 8 {
+			return false
+		}
+		switch x := stripConvNoBind(v).(type) {
+		case *ssa.Alloc:
+			return true
+		case *ssa.Call:
+			o := calleeObj(x)
+			if o == nil || o.Pkg() == nil || o.Pkg().Path() != "math/big" {
+				return false
+			}
+			if o.Name() == "NewInt" {
+				return true
+			}
+			if r := callRecv(x); r != nil && recvName(o) == "Int" && isBigIntPtr(x.Type()) {
+				return fresh(r, depth+1)
+			}
+		case *ssa.Phi:
+			for _, e := range x.Edges {
+				if !fresh(e, depth+1) {
+					return false
+				}
+			}
+			return len(x.Edges) > 0
+		}
+		return false
+	}
+	// setter sites: stores into the balance fields, and calls of known setters
+	type site struct {
+		at  ssa.Instruction
+		val ssa.Value
+	}
+	setterParam := map[*ssa.Function]int{} // function -> index of the parameter it takes ownership of
+	sitesOf := func(fn *ssa.Function) []site {
+		var out []site
+		for _, b := range fn.Blocks {
+			for _, in := range b.Instrs {
+				switch x := in.(type) {
+				case *ssa.Store:
+					if fa, ok := x.Addr.(*ssa.FieldAddr); ok && isBalField(fieldOfAddr(fa)) && isBigIntPtr(x.Val.Type()) {
+						out = append(out, site{x, x.Val})
+					}
+				case ssa.CallInstruction:
+					if g := staticCallee(x); g != nil {
+						if idx, ok := setterParam[g]; ok && idx < len(x.Common().Args) {
+							out = append(out, site{x, x.Common().Args[idx]})
+						}
+					}
+				}
+			}
+		}
+		return out
+	}
+	for changed := true; changed; {
+		changed = false
+		for _, fn := range fns {
+			if _, done := setterParam[fn]; done {
+				continue
+			}
+			ss := sitesOf(fn)
+			if len(ss) == 0 {
+				continue
+			}
+			idx, all := -1, true
+			for _, s := range ss {
+				i := paramIndex(fn, s.val)
+				if i < 0 || (idx >= 0 && i != idx) {
+					all = false
+				}
+				if i >= 0 && idx < 0 {
+					idx = i
+				}
+			}
+			if all && idx >= 0 {
+				setterParam[fn] = idx
+				changed = true
+			}
+		}
+	}
+	n := 0
+	for _, fn := range fns {
+		ss := sitesOf(fn)
+		if len(ss) == 0 {
+			continue
+		}
+		c.sawFunc(fname(fn))
+		if _, isSetter := setterParam[fn]; isSetter {
+			n++
+			c.sites++
+			c.Pass(fname(fn)+"#takes-ownership-of-its-parameter", fn.Pos(), "a setter: its parameter is handed on at every setter site")
+			continue
+		}
+		for i, s := range ss {
+			n++
+			c.sites++
+			cons := fmt.Sprintf("%s#balance-value-owned-%d", fname(fn), i)
+			switch {
+			case fresh(s.val, 0):
+				c.Pass(cons, s.at.Pos(), "a value made in this function")
+			case paramIndex(fn, s.val) >= 0:
+				c.Fail(cons, s.at.Pos(), "the function stores its caller's integer as the balance on this path while it computes a new integer on another: callers (the EVM hands in integers it recycles through its integer pool) keep a pointer into the account, and the balance changes later without a journal entry")
+			default:
+				// the entry of a journal owns the pre-image it restores; the constructor defaults a missing balance
+				if f, _ := loadedField(stripConvNoBind(s.val)); f != nil && (strings.HasPrefix(f.Name(), "prev") || isBalField(f)) {
+					c.Pass(cons, s.at.Pos(), "restores a pre-image owned by the journal entry / carries the source's own value over")
+				} else {
+					c.Fail(cons, s.at.Pos(), "the integer stored as the balance is neither made here nor a setter's parameter: it may be shared with its source")
+				}
+			}
+		}
+	}
+	if n == 0 {
+		c.Undecided("core/state#balance-setters", token.NoPos, "no store into Account.Balance / DelegationBalance found")
 	}
 }
